@@ -793,16 +793,23 @@ def summaries(ctx, R):
             want["map"] = ok
         elif p == "FieldState::unwrap":
             R.add("C08.SUMMARY")
-            v = View(b)
+            import inline
+            v = View(inline.expand_local_helpers(crate, b))
             ok = False
+            wrong = False
             for bb in v.reach:
                 for st in v.blocks[bb]["stmts"]:
-                    if st["k"] == "assign" and st["place"]["l"] == 0:
-                        t = v.origin_rv(st["rv"], bb)
-                        if t[0] == "field" and t[2] == "Some" and t[1] == ("param", 1):
-                            ok = True
-            if not ok:
+                    if st["k"] == "assign" and st["place"]["l"] == 0 and not st["place"]["p"]:
+                        for t in v.alts(v.origin_rv(st["rv"], bb)):
+                            t = strip_refs(t)
+                            if t[0] == "field" and t[2] == "Some" and strip_refs(t[1]) == ("param", 1):
+                                ok = True
+                            elif t[0] == "field" and strip_refs(t[1]) == ("param", 1):
+                                wrong = True     # the payload of another state
+            if wrong:
                 R.bad("C08.SUMMARY", b.path, "FieldState::unwrap does not return the payload of Some", b.span)
+            elif not ok:
+                R.bad("C08.SUMMARY", b.path, "what FieldState::unwrap returns was not read: not recognised (undecided)", b.span)
             want["unwrap"] = ok
     for k, val in want.items():
         if val is None:
